@@ -112,8 +112,19 @@ def run_case(case: dict, scheduler, set_seed: int = 0, step_cap: int = 20000, ke
                 charts = [make_chart(case, case.get('uuid_seed', 0)) for _ in runs]
             if keep_snaps:
                 snaps.append(snapshot_chart(charts[0], classes))
+            stagger = case.get('stagger') or ()
+
+            def starter(i):
+                if i in stagger:
+                    async def delayed():
+                        # the start of this run is an external event like any other: the scheduler decides when
+                        await sim.gate(f'start{i}', 'start')
+                        return await charts[i].run(pipeline_id=f'p{i}', input_kwargs=inputs[i])
+                    return delayed()
+                return charts[i].run(pipeline_id=f'p{i}', input_kwargs=inputs[i])
+
             for i, r in enumerate(runs):
-                sim.start_run(lambda i=i: charts[i].run(pipeline_id=f'p{i}', input_kwargs=inputs[i]), run_id=i)
+                sim.start_run(lambda i=i: starter(i), run_id=i)
             status = sim.drive()
             if keep_snaps:
                 snaps.append(snapshot_chart(charts[0], classes))
